@@ -67,6 +67,8 @@ func (h *H) doRace(primary, at, secondary string) {
 	if len(kind) < len(at) {
 		n = int(atoi(at[len(kind):]))
 	}
+	h.racing = true
+	defer func() { h.racing = false }()
 	pk := &callPark{kind: kind, n: n, arrived: make(chan struct{}), release: make(chan struct{})}
 	pDone := make(chan struct{})
 	go func() {
